@@ -68,7 +68,7 @@ type c07Rw struct {
 type c07Out struct {
 	Env, Hidden []string
 	Rewrite     []c07Rw
-	Mode        int // 0 Forward, 1 PackedForward, 2 CompressedPackedForward
+	Mode        int // 0 Forward, 1 PackedForward, 2 CompressedPackedForward, 3 = a datadog output (only Hidden is used)
 	MaxRecords  int
 	MaxBytes    int
 }
@@ -267,7 +267,7 @@ func c07DecodeConf(c *Case) (cf *c07Conf, restS [][]byte, restZ []int64, ok bool
 	}
 	for k := 0; k < nout; k++ {
 		o := c07Out{Mode: int(c.Z[7+3*k]), MaxRecords: int(c.Z[8+3*k]), MaxBytes: int(c.Z[9+3*k])}
-		if !c07DecSer(c.S[7+k], &o) || o.Mode < 0 || o.Mode > 2 || o.MaxRecords < 0 || o.MaxBytes < 0 {
+		if !c07DecSer(c.S[7+k], &o) || o.Mode < 0 || o.Mode > 3 || o.MaxRecords < 0 || o.MaxBytes < 0 {
 			return nil, nil, nil, false
 		}
 		cf.Outs = append(cf.Outs, o)
@@ -375,6 +375,10 @@ func (cf *c07Conf) yaml(bufRoot string) string {
 	sb.WriteString("outputBufferPairs:\n")
 	for k, o := range cf.Outs {
 		fmt.Fprintf(&sb, "  - name: out%d\n    buffer:\n      type: hybridBuffer\n      rootPath: %s\n      maxBufSize: 1GB\n", k, yq(fmt.Sprintf("%s-out%d", bufRoot, k)))
+		if o.Mode == 3 {
+			fmt.Fprintf(&sb, "    output:\n      type: datadog\n      serialization:\n        hiddenFields: %s\n      upstream:\n        address: https://localhost:1/api/v2/logs\n        httpTimeout: 30s\n", c07YQ(o.Hidden))
+			continue
+		}
 		fmt.Fprintf(&sb, "    output:\n      type: fluentdForward\n      serialization:\n        environmentFields: %s\n        hiddenFields: %s\n", c07YQ(o.Env), c07YQ(o.Hidden))
 		if len(o.Rewrite) == 0 {
 			sb.WriteString("        rewriteFields: {}\n")
